@@ -206,7 +206,8 @@ deriving DecidableEq, Repr, Inhabited
 inductive Panic
   /-- voteTracker / genBundle / makeBundle Panicf or index panic -/
   | tracker (k : VoteTracker.PanicKind)
-  /-- method call on a nil child router (the child was garbage-collected by the `update` that created it) -/
+  /-- method call on a nil child router (unreachable since roundRouter.update keeps the child it was called for; a
+  round router collected by rootRouter.update right after its creation would still be one) -/
   | nilRouter
   /-- checkedListener precondition / postcondition `Panicf` (1 proposalManager, 2 proposalTracker pre, 3 proposalTracker post,
   4 voteTracker pre, 5 voteTracker post) -/
@@ -306,12 +307,12 @@ def PeriodR.upd (pr : PeriodR) (s : Nat) : PeriodR :=
 def keepPeriod (pl : PlayerF) (p : Nat) : Bool :=
   decide ((p + 1) % 18446744073709551616 ≥ pl.period) || decide (p ≤ 1)
 
-/-- `roundRouter.update(state, p, true)` -/
+/-- `roundRouter.update(state, p, true)`: create `Children[p]` if absent, garbage-collect, and keep the child the call was
+made for whatever the GC test says (`children[p] = router.Children[p]`: the dispatch that follows uses it) -/
 def RoundR.upd (pl : PlayerF) (rr : RoundR) (p : Nat) : RoundR :=
-  let ch := match aget rr.periods p with
-    | some _ => rr.periods
-    | none => rr.periods ++ [(p, ({} : PeriodR))]
-  { rr with periods := ch.filter (fun kv => keepPeriod pl kv.1) }
+  match aget rr.periods p with
+  | some x => { rr with periods := aset (rr.periods.filter (fun kv => keepPeriod pl kv.1)) p x }
+  | none => { rr with periods := aset ((rr.periods ++ [(p, ({} : PeriodR))]).filter (fun kv => keepPeriod pl kv.1)) p {} }
 
 /-- the GC test of `rootRouter.update`: `r + credentialRoundLag >= state.Round` -/
 def keepRound (P : Params) (pl : PlayerF) (r : Nat) : Bool := decide (r + P.lag ≥ pl.round)
@@ -656,27 +657,29 @@ def RoundR.threshold (pl : PlayerF) (rr : RoundR) (e : Thresh) : Except Panic (R
                                 relevant := aset rr.store.relevant e.period e.proposal }
       .ok ({ rr with store := st.trim pl.period }, none)
 
+/-- the next-threshold cache of `voteTrackerPeriod` after a nextThreshold event for `proposal` -/
+def NextStatus.cache (c : NextStatus) (proposal : Nat) : NextStatus :=
+  if proposal = 0 then { c with bottom := true } else { c with proposal := proposal }
+
+/-- voteAccepted at `voteTrackerPeriod`: forward to the step machine; a threshold event of a step ≥ next is dispatched to
+itself (voteMachinePeriod, …, 0: `periodRouter.update(0)`) and cached -/
+def PeriodR.voteAccepted (P : Params) (pr : PeriodR) (r p s : Nat) (x : VoteTracker.Vote) : Except Panic (PeriodR × Thresh) :=
+  match pr.atStep s (fun sr => sr.accept P r p s x) with
+  | .error e => .error e
+  | .ok (pr, ev) =>
+    if ev.kind ≠ 0 ∧ ev.step ≥ 3 then .ok ({ pr.upd 0 with cached := (pr.upd 0).cached.cache ev.proposal }, ev)
+    else .ok (pr, ev)
+
 /-- voteAccepted at `voteTrackerRound` of round router `r` (the whole chain down to the step machine and back) -/
 def RoundR.voteAccepted (P : Params) (pl : PlayerF) (rr : RoundR) (r p s : Nat) (x : VoteTracker.Vote) :
     Except Panic (RoundR × Thresh) :=
-  let res := rr.atPeriod pl p 0 (fun pr =>
-    match pr.atStep s (fun sr => sr.accept P r p s x) with
-    | .error e => .error e
-    | .ok (pr, ev) =>
-      if ev.kind ≠ 0 ∧ ev.step ≥ 3 then
-        -- dispatch to self (voteMachinePeriod): periodRouter.update(0), then cache the next threshold
-        let pr := pr.upd 0
-        let c := if ev.proposal = 0 then { pr.cached with bottom := true } else { pr.cached with proposal := ev.proposal }
-        .ok ({ pr with cached := c }, ev)
-      else .ok (pr, ev))
-  match res with
+  match rr.atPeriod pl p 0 (fun pr => pr.voteAccepted P r p s x) with
   | .error e => .error e
   | .ok (rr, ev) =>
     if ev.kind ≠ 0 then
       -- dispatch to self (voteMachineRound, round, 0, 0): roundRouter.update(state, 0)
-      let rr := rr.upd pl 0
-      if fresherThan ev rr.freshest then .ok ({ rr with freshest := ev, ok := true }, ev)
-      else .ok (rr, {})
+      if fresherThan ev (rr.upd pl 0).freshest then .ok ({ rr.upd pl 0 with freshest := ev, ok := true }, ev)
+      else .ok (rr.upd pl 0, {})
     else .ok (rr, {})
 
 /-! ## player-level queries (all go through `rootRouter.dispatch`) -/
@@ -985,6 +988,16 @@ def issueNextVote (P : Params) (σ : State) (deadline : Nat) : Except Panic (Sta
         | .error e => .error e
         | .ok (σ, ns) => .ok (fin σ (if ns.bottom then 0 else ns.proposal))
 
+/-- the tail of `player.issueFastVote`: a fast-recovery vote gives up the earlier steps of the period (no cert vote may
+follow a redo/down vote, no soft vote a late vote), then the attest action -/
+def fastFinish (σ : State) (acts : List Action) (aStep v : Nat) : State × List Action :=
+  let pl := σ.pl
+  let pl' :=
+    if aStep ≠ sLate ∧ pl.step ≤ 2 then { pl with step := 3 }
+    else if aStep = sLate ∧ pl.step < 2 then { pl with step := 2 }
+    else pl
+  ({ σ with pl := pl' }, acts ++ [.attest pl.round pl.period aStep v])
+
 /-- `player.issueFastVote` -/
 def issueFastVote (P : Params) (σ : State) : Except Panic (State × List Action) :=
   match partitionPolicy P σ with
@@ -1000,20 +1013,18 @@ def issueFastVote (P : Params) (σ : State) : Except Panic (State × List Action
         | .error e => .error e
         | .ok (σ, edown) =>
           let acts := acts ++ [.broadcastVotes (elate ++ (eredo ++ edown))]
-          let r := σ.pl.round
-          let p := σ.pl.period
-          match staged P σ r p with
+          match staged P σ σ.pl.round σ.pl.period with
           | .error e => .error e
           | .ok (σ, ans) =>
             if ans.payload.isSome then
-              .ok (σ, acts ++ [if ans.proposal = 0 then .attest r p sDown 0 else .attest r p sLate ans.proposal])
+              .ok (if ans.proposal = 0 then fastFinish σ acts sDown 0 else fastFinish σ acts sLate ans.proposal)
             else
               match nextStatus P σ with
               | .error e => .error e
               | .ok (σ, ns) =>
-                if ns.bottom then .ok (σ, acts ++ [.attest r p sDown 0])
-                else if ns.proposal = 0 then .ok (σ, acts ++ [.attest r p sDown 0])
-                else .ok (σ, acts ++ [.attest r p sRedo ns.proposal])
+                if ns.bottom then .ok (fastFinish σ acts sDown 0)
+                else if ns.proposal = 0 then .ok (fastFinish σ acts sDown 0)
+                else .ok (fastFinish σ acts sRedo ns.proposal)
 
 /-- `player.enterPeriod` -/
 def enterPeriod (P : Params) (σ : State) (src : Thresh) (target : Nat) : Except Panic (State × List Action) :=
